@@ -19,7 +19,7 @@ import sys
 import time
 import z3
 
-FUNCTIONS = ["space_utils.percolate_space", "space_utils.percolate_space_strict", "space_utils.function_eval"]
+FUNCTIONS = ["space_utils.percolate_space", "space_utils.percolate_space_strict", "space_utils.function_eval", "drivers.find_single_node_LDOIs"]
 
 
 class ConstOracle:
@@ -137,6 +137,24 @@ def check_model(path, nspaces=6, selftest=False):
                 fails.append(f"{label}: percolate_space_strict({dict(list(S.items())[:4])}) differs from the definition on {dict(list(diff.items())[:4])} (library, z3)")
         except RuntimeError:
             fails.append(f"{label}: unknown")
+    # single-node LDOI table: keys = both values of every variable with a non-constant function, values = strict percolation
+    try:
+        from biobalm.drivers import find_single_node_LDOIs
+        table = find_single_node_LDOIs(sd.symbolic)
+        keys = {(v, b) for v in nonconst for b in (0, 1)}
+        if set(table) != keys:
+            fails.append(f"{label}: LDOI table keys differ from (non-constant variable, value): {sorted(set(table) ^ keys)[:4]}")
+        for v in dict.fromkeys(pick + nonconst[:2]):
+            for b in (0, 1):
+                if (v, b) not in table:
+                    continue
+                _, wants = lfp(orc, names, {v: b}, only=list(nonconst), strict=True)
+                if dict(table[(v, b)]) != wants:
+                    gots = dict(table[(v, b)])
+                    diff = {k: (gots.get(k), wants.get(k)) for k in set(gots) | set(wants) if gots.get(k) != wants.get(k)}
+                    fails.append(f"{label}: LDOI({v}={b}) differs from strict percolation on {dict(list(diff.items())[:4])} (library, z3)")
+    except RuntimeError:
+        fails.append(f"{label}: unknown")
     if selftest:
         fails.append(label + ": selftest")
     return {"variables": len(names), "spaces": len(spaces), "queries": orc.queries}, fails
